@@ -916,3 +916,209 @@ def streaming_length_rule(check, cdb, rule="M", only_tus=None):
                      extracted="; ".join(bad[:3]) if bad else "no 32-bit counter or conversion meets a value that grows with the caller's length",
                      expected="a request of 4 GiB or more is processed like any other (or refused): no 32-bit loop counter against the size_t length, no truncation of a length-derived value")
     return n
+
+
+CONTEXT_TYPES = ("EcContext", "Curve448Context", "MontContext")
+CONTEXT_BUILDERS = re.compile(r"(new_context|free_context|context_init|context_free|_new_context|scramble_g|free_g_)")
+
+
+def _split_params(ftype):
+    """'int (uint64_t *, const uint64_t *)' -> ['uint64_t *', 'const uint64_t *']"""
+    i = ftype.find("(")
+    if i < 0:
+        return []
+    depth, cur, out = 0, "", []
+    for ch in ftype[i + 1:]:
+        if ch == "(":
+            depth += 1
+        if ch == ")":
+            if depth == 0:
+                break
+            depth -= 1
+        if ch == "," and depth == 0:
+            out.append(cur.strip())
+            cur = ""
+        else:
+            cur += ch
+    if cur.strip():
+        out.append(cur.strip())
+    return out
+
+
+def _pointee_const(t):
+    """True when a pointer type cannot be written through (its pointee is const) or it is not a pointer."""
+    t = t.strip()
+    if "*" not in t:
+        return True
+    head = t[:t.rfind("*")]
+    return bool(re.search(r"\bconst\b", head))
+
+
+WRITERS_FIRST_ARG = ("memcpy", "memset", "memmove", "__builtin_memcpy", "__builtin_memset", "__builtin_memmove")
+
+
+def _load_fn(info, name):
+    fd = info.funcs.get(name) if info is not None else None
+    if fd is not None and fd.get("_lazy"):
+        with open(os.path.join(info.side_dir, fd["_lazy"])) as fh:
+            fd = json.load(fh)
+    return fd
+
+
+def writes_through_param(info, fd, pindex, depth=0, seen=None):
+    """Does the function store through its pindex-th (pointer) parameter, directly or by handing it to a callee that
+    does?  Unknown callees decide by the constness of their parameter type."""
+    seen = seen if seen is not None else set()
+    key = (fd.get("name"), pindex)
+    if key in seen or depth > 6:
+        return False
+    seen.add(key)
+    params = [x for x in fd.get("inner", []) if x.get("kind") == "ParmVarDecl"]
+    if pindex >= len(params) or body_of(fd) is None:
+        return True
+    pid = params[pindex].get("id")
+    pname = params[pindex].get("name")
+    par = _parents(fd)
+    # local aliases of the parameter (q = p; q = p + k): treated as the parameter
+    alias = set([pname])
+    changed = True
+    while changed:
+        changed = False
+        for n in walk(fd):
+            if isinstance(n, dict) and n.get("kind") == "VarDecl" and n.get("name") not in alias and "*" in n.get("type", {}).get("qualType", ""):
+                if any(isinstance(x, dict) and x.get("kind") == "DeclRefExpr" and x.get("referencedDecl", {}).get("name") in alias for x in walk(n)):
+                    alias.add(n.get("name"))
+                    changed = True
+    for n in walk(fd):
+        if not (isinstance(n, dict) and n.get("kind") == "DeclRefExpr" and n.get("referencedDecl", {}).get("name") in alias):
+            continue
+        cur, up = n, par.get(id(n))
+        through = False          # went through a dereference / subscript
+        while up is not None:
+            k = up.get("kind")
+            if k in ("ImplicitCastExpr", "ParenExpr", "CStyleCastExpr"):
+                pass
+            elif k == "ArraySubscriptExpr" and up["inner"][0] is cur or (k == "UnaryOperator" and up.get("opcode") == "*"):
+                through = True
+            elif k == "BinaryOperator" and up.get("opcode") in ("+", "-") and not through:
+                pass                                   # pointer arithmetic
+            elif k == "MemberExpr" and up.get("isArrow"):
+                through = True
+            else:
+                break
+            cur, up = up, par.get(id(up))
+        if up is None:
+            continue
+        k = up.get("kind")
+        if through and k in ("BinaryOperator", "CompoundAssignOperator") and up["inner"][0] is cur and \
+                (k == "CompoundAssignOperator" or up.get("opcode") == "="):
+            return True
+        if through and k == "UnaryOperator" and up.get("opcode") in ("++", "--"):
+            return True
+        if not through and k == "CallExpr":
+            args = up["inner"][1:]
+            idx = next((j for j, a in enumerate(args) if a is cur), None)
+            if idx is None:
+                continue
+            cn = callee_name(up)
+            if cn in WRITERS_FIRST_ARG:
+                if idx == 0:
+                    return True
+                continue
+            cfd = _load_fn(info, cn)
+            if cfd is not None and body_of(cfd) is not None:
+                if writes_through_param(info, cfd, idx, depth + 1, seen):
+                    return True
+            else:
+                pts = _split_params(strip(up["inner"][0]).get("type", {}).get("qualType", ""))
+                if idx < len(pts) and not _pointee_const(pts[idx]):
+                    return True
+    return False
+
+
+def shared_context_sites(fdecl, info=None):
+    """Uses, in one function, of a pointer member of a curve / Montgomery context through which the function could
+    write: the member handed to a callee parameter whose pointee is not const, bound to a local whose pointee is not
+    const, or stored through.  Members whose pointee is itself a context type are followed, not reported."""
+    par = _parents(fdecl)
+    out = []
+    for n in walk(fdecl):
+        if not (isinstance(n, dict) and n.get("kind") == "MemberExpr" and n.get("inner")):
+            continue
+        bt = strip(n["inner"][0]).get("type", {}).get("qualType", "")
+        if not any(c in bt for c in CONTEXT_TYPES):
+            continue
+        mt = n.get("type", {}).get("qualType", "")
+        if "*" not in mt or any(c in mt for c in CONTEXT_TYPES):
+            continue
+        # climb through casts / parentheses to the use
+        cur = n
+        up = par.get(id(cur))
+        while up is not None and up.get("kind") in ("ImplicitCastExpr", "ParenExpr", "CStyleCastExpr"):
+            cur, up = up, par.get(id(up))
+        if up is None:
+            continue
+        k = up.get("kind")
+        name = n.get("name")
+        if k == "CallExpr":
+            args = up["inner"][1:]
+            idx = next((j for j, a in enumerate(args) if a is cur), None)
+            if idx is None:
+                continue
+            pts = _split_params(strip(up["inner"][0]).get("type", {}).get("qualType", ""))
+            if idx < len(pts) and not _pointee_const(pts[idx]):
+                cfd = _load_fn(info, callee_name(up))
+                if cfd is not None and body_of(cfd) is not None and callee_name(up) not in WRITERS_FIRST_ARG:
+                    if not writes_through_param(info, cfd, idx):
+                        continue                 # declared without const, but the callee (and its callees) only read it
+                out.append("context member `%s` is passed to %s() as parameter %d of type `%s`, which is written through" % (name, callee_name(up), idx + 1, pts[idx]))
+        elif k == "VarDecl":
+            vt = up.get("type", {}).get("qualType", "")
+            if not _pointee_const(vt):
+                out.append("context member `%s` is bound to the local `%s` of type `%s` (writable alias)" % (name, up.get("name"), vt))
+        elif k == "BinaryOperator" and up.get("opcode") == "=":
+            lhs, rhs = up["inner"][0], up["inner"][1]
+            if rhs is cur:
+                lt = strip(lhs).get("type", {}).get("qualType", "")
+                if not _pointee_const(lt):
+                    out.append("context member `%s` is assigned to `%s` of type `%s` (writable alias)" % (name, ref_name(lhs) or "an lvalue", lt))
+            elif lhs is cur:
+                out.append("context member `%s` is overwritten" % name)
+        elif k in ("ArraySubscriptExpr", "UnaryOperator"):
+            # ctx->m[i] = ... / *ctx->m = ...
+            up2 = par.get(id(up))
+            while up2 is not None and up2.get("kind") in ("ImplicitCastExpr", "ParenExpr"):
+                up, up2 = up2, par.get(id(up2))
+            if up2 is not None and up2.get("kind") in ("BinaryOperator", "CompoundAssignOperator") and up2.get("opcode", "=").endswith("=") and \
+                    up2.get("opcode") not in ("==", "!=", "<=", ">=") and up2["inner"][0] is up:
+                out.append("memory behind context member `%s` is stored to" % name)
+    return out
+
+
+def shared_context_rule(check, cdb, rule="P1", tus=("src/ec_ws.c", "src/ed448.c", "src/ed25519.c", "src/curve448.c", "src/curve25519.c")):
+    """A curve context (and the Montgomery context inside it) is created once per curve and shared by every point, key
+    and thread.  After construction no function may write through it: no pointer member of a context reaches a
+    writable parameter, a writable local alias or a store, outside the functions that build and free contexts."""
+    from .ceval import CProgram
+    prog = CProgram(cdb)
+    n = 0
+    for src in tus:
+        info = prog.tu(src)
+        for name, fd in sorted(info.funcs.items()):
+            if fd.get("_lazy"):
+                import json as _json
+                with open(os.path.join(info.side_dir, fd["_lazy"])) as fh:
+                    fd = _json.load(fh)
+            if CONTEXT_BUILDERS.search(name) or body_of(fd) is None:
+                continue
+            loc = fd.get("loc", {})
+            n += 1
+            bad = shared_context_sites(fd, info)
+            if bad or n <= 2:
+                check.ob(rule, "%s|c|context-readonly|%s|%s" % (rule, src.split("/")[-1], name), not bad, src, 0,
+                         extracted="; ".join(sorted(set(bad))[:3]) if bad else "no writable use of a context member",
+                         expected="shared curve contexts are read-only after construction (scratch space belongs to the call or to the destination point)")
+    check.count("context_readonly_functions", n)
+    if n < 60:
+        raise AnalysisError("only %d functions scanned for writable uses of a shared context" % n)
+    return n
